@@ -7,11 +7,14 @@ Three parts, one case each:
 roundtrip  `rdkit_to_networkx(networkx_to_rdkit(G))` is isomorphic to G respecting element, formal charge,
            bond order (1.5 <-> AROMATIC) and the hydrogen count of every atom, with and without a conformer on the
            RDKit molecule (conformer: `AllChem.EmbedMolecule` with a fixed seed on a copy after `Chem.AddHs`).
-           With a conformer every returned node must also carry a finite 3-vector 'position' and the two ends of
-           every returned bond must lie at bonding distance.
-embed      `embed_3d_via_rdkit(G)` leaves on every node a finite 3-vector 'position' and the two ends of every
-           bond lie at bonding distance; afterwards `forward_map_molecule(cg, G)` puts every bead at the weighted
-           mean of its own atoms.
+           With a conformer every returned node must also carry a finite 3-vector 'position' which is the conformer
+           position of an atom of the same element, different nodes get different atoms, and the two ends of every
+           returned bond sit on two atoms that are bonded in the RDKit molecule.
+embed      `embed_3d_via_rdkit(G)` leaves on every node a finite 3-vector 'position' that is the final conformer
+           position of "its own atom": mapping every node to the RDKit atom found at its position is injective, keeps
+           the element and sends every bond of G to a bond of the RDKit molecule (so bonded nodes are exactly as far
+           apart as RDKit put the bonded atoms).  Afterwards `forward_map_molecule(cg, G)` puts every bead at the
+           weighted mean of its own atoms.
 fmap       `forward_map_molecule(cg, aa)` with seeded random atom positions (no RDKit): every bead sits at
            sum(w_i p_i) / sum(w_i) over exactly the atoms of `cg.nodes[k]['graph']`, and after adding one vector v to
            every atom position every bead has moved by v.
@@ -28,26 +31,31 @@ Scope decisions (the oracle demands no more than the statement):
   quantity compared.  A second input form ("implicit": pysmiles.remove_explicit_hydrogens applied to the copy, the
   form the repo's own test_rdkit uses) exercises the 'hcount' side of the same sum; it is used without conformer.
 * comparison is by attribute-respecting isomorphism, not by node key: the docs do not promise which key the
-  returned graph uses for which atom.
+  returned graph uses for which atom.  Likewise "its own atom" is decided up to a structure-preserving map: two
+  hydrogens of one methyl group may swap positions without the check noticing (nor would a chemist).
+* "bonded atoms lie at bonding distance" is checked through the RDKit molecule that `embed_3d_via_rdkit` itself
+  built (observed by wrapping `rdkit.Chem.AllChem.EmbedMolecule / UFFOptimizeMolecule` in the checking process,
+  nothing in the tree under test is touched): a node's position must BE the position of a corresponding atom.
+  Absolute distance thresholds are not used: RDKit's UFF step is trusted, not verified, and it is not reliable —
+  for `{[#A]|5}.{#A=[$]C(=O)N[$]}` (NC(=O)NC(=O)NC(=O)NC(=O)C(N)=O) 77 of 200 unseeded embeddings end with a C=O or
+  C-N bond longer than 1.7 A (up to 39 A) on the repaired tree, with every coordinate on the right atom.  When the
+  RDKit molecule cannot be observed (the code stopped calling AllChem.EmbedMolecule through the module) the embed
+  case is skipped, not guessed.
 * only integer node keys ("node numbering"); `embed_3d_via_rdkit` calls pysmiles.add_explicit_hydrogens, which needs
   integer keys anyway.
-* molecules are connected, valence-complete resolver outputs over H B? no: H C N O F Si P S Cl Br I with [NH3+],
-  [N+], [O-] charges, bond orders 1, 2, 3 and 1.5.  Five-membered heteroaromatics (pyrrole, furan, thiophene,
-  indole) are NOT generated: CGsmiles/pysmiles keep them in Kekule form on purpose, RDKit's sanitisation turns the
-  ring aromatic, so the orders come back as 1.5 — a disagreement between two aromaticity models that the statement
-  does not settle.  No `q=` annotations (F13 territory), no order-0 / order-4 bonds.
-* "bonding distance" = between 0.5 and 1.3 times the sum of the two covalent radii (Cordero 2008); real bond
-  lengths are 0.85..1.05 times that sum, non-bonded neighbours start at about 1.45 times.
+* molecules are connected, valence-complete resolver outputs over H C N O F Si P S Cl Br I with [NH3+], [N+], [O-]
+  charges, bond orders 1, 2, 3 and 1.5.  Five-membered heteroaromatics (pyrrole, furan, thiophene, indole) are NOT
+  generated: CGsmiles/pysmiles keep them in Kekule form on purpose, RDKit's sanitisation turns the ring aromatic,
+  so the orders come back as 1.5 — a disagreement between two aromaticity models that the statement does not
+  settle.  No `q=` annotations (F13 territory), no order-0 / order-4 bonds.
 * RDKit failing to embed (EmbedMolecule returns -1 -> 'Bad Conformer Id') or refusing the molecule in
-  SanitizeMol is outside the statement: the case is skipped (none occurs with the present pools).
-* a bead whose weights sum to <= 0 has no weight-normalised average: skipped.
+  SanitizeMol is outside the statement: the case is skipped (a dozen strained rings of beads per quick run).
+* a bead whose weights sum to <= 0 has no weight-normalised average: skipped (not generated any more).
 """
 import copy
 import functools
-import itertools
 import logging
 import math
-import random
 
 import networkx as nx
 import numpy as np
@@ -62,14 +70,14 @@ BUDGET = {'quick': 33.0, 'thorough': 420.0}
 CHUNK = 24
 BOUNDS = {
     'quick': {'molecules': 'fixed list (21 hand-written + 11 E/Z), 53 single fragments, 112 ordered pairs, 26 homopolymers, '
-                           '120 seeded random assemblies (<= 6 beads, <= 1 ring of beads, shared-atom chains); '
-                           'weighted: 81 fixed + 250 seeded random',
+                           '100 seeded random assemblies (<= 6 beads, <= 1 ring of beads, shared-atom chains); '
+                           'weighted: 81 fixed + 200 seeded random',
               'roundtrip': '6 labelings without conformer, 3 of them also with conformer, + implicit-hydrogen form x 2 labelings',
               'embed': '3 labelings per molecule (resolver keys, permuted+shuffled, gapped+reversed)',
-              'fmap': '4 labelings x 3 position seeds x 1 translation per weighted molecule',
+              'fmap': '4 labelings x 2 position seeds x 1 translation per weighted molecule',
               'max_atoms': 'about 80'},
-    'thorough': {'molecules': 'fixed list, single fragments, all 26 x 46 ordered pairs, homopolymers n=3,5, 1500 seeded random '
-                              'assemblies; weighted: 81 fixed + 2500 seeded random',
+    'thorough': {'molecules': 'fixed list, single fragments, 26 x 20 + 12 x 12 ordered pairs, homopolymers n=3,5, 800 seeded random '
+                              'assemblies (<= 8 beads); weighted: 81 fixed + 1500 seeded random',
                  'roundtrip': '10 labelings x {no conformer, conformer} + implicit-hydrogen form x 3 labelings',
                  'embed': '6 labelings per molecule',
                  'fmap': '8 labelings x 5 position seeds x 2 translations per weighted molecule',
@@ -86,17 +94,16 @@ RULE = ('CGsmiles strings from gen/coords_mols.py (fixed list, every pool fragme
 ASSUMPTIONS = [
     'the resolver output for the generated strings is the molecule under test (resolver correctness is C01..C12, not re-checked here); '
     'a string that does not resolve or resolves to a disconnected molecule is skipped',
-    'RDKit (AddAtom returns 0,1,2,.. in call order, GetAtoms iterates in index order, SanitizeMol, AddHs, EmbedMolecule, '
-    'UFFOptimizeMolecule, GetConformer) behaves as documented; embedded and UFF-optimised bond lengths lie within 0.5..1.3 x the '
-    'sum of covalent radii',
+    'RDKit (SanitizeMol, AddHs, EmbedMolecule, UFFOptimizeMolecule, GetConformer, GetBondBetweenAtoms) behaves as documented; that '
+    'RDKit puts bonded atoms at bonding distance is trusted, not checked (UFF demonstrably diverges for some amide chains)',
+    'the RDKit molecule embedded inside embed_3d_via_rdkit is observed by wrapping rdkit.Chem.AllChem.EmbedMolecule / '
+    'UFFOptimizeMolecule in the checking process; distinct atoms of a conformer are more than 1e-6 A apart',
     'pysmiles.remove_explicit_hydrogens / add_explicit_hydrogens behave as documented',
     'isomorphism decided by networkx.is_isomorphic (VF2) after an invariant pre-check',
     'embed_3d_via_rdkit embeds with RDKit\'s random seed: the positions differ between runs, the checked clause does not depend on them',
 ]
 
-RADII = {'H': 0.31, 'B': 0.84, 'C': 0.76, 'N': 0.71, 'O': 0.66, 'F': 0.57, 'Si': 1.11, 'P': 1.07, 'S': 1.05,
-         'Cl': 1.02, 'Br': 1.20, 'I': 1.39}
-LO, HI = 0.5, 1.3
+POS_TOL = 1e-6   # a stored position and the RDKit conformer position are the same numbers
 
 
 def init_worker():
@@ -149,7 +156,7 @@ def _mol_cases(s, tier, idx):
 
 
 def _fmap_cases(s, tier, idx):
-    nps = 3 if tier == 'quick' else 5
+    nps = 2 if tier == 'quick' else 5
     nsh = 1 if tier == 'quick' else 2
     for li, lab in enumerate(FM_LABELS[tier]):
         for p in range(nps):
@@ -160,9 +167,9 @@ def _fmap_cases(s, tier, idx):
 
 def cases(tier, seed):
     quick = tier == 'quick'
-    plain = list(cm.cgsmiles_strings(seed, 120 if quick else 1500, weights=False, pairs='some' if quick else 'all',
+    plain = list(cm.cgsmiles_strings(seed, 100 if quick else 800, weights=False, pairs='some' if quick else 'most',
                                      max_beads=6 if quick else 8))
-    weighted = list(cm.cgsmiles_strings(seed, 250 if quick else 2500, weights=True, max_beads=6 if quick else 8))
+    weighted = list(cm.cgsmiles_strings(seed, 200 if quick else 1500, weights=True, max_beads=6 if quick else 8))
     seen = set()
     plain = [s for s in plain if not (s in seen or seen.add(s))]
     weighted = [s for s in weighted if not (s in seen or seen.add(s))]
@@ -228,13 +235,10 @@ def _same_chemistry(G, H):
     return None if ok else 'same atom environments but no isomorphism respecting element, charge, H count and bond order'
 
 
-def _bond_bounds(e1, e2):
-    s = RADII.get(e1, 1.2) + RADII.get(e2, 1.2)
-    return LO * s, HI * s
-
-
-def _check_positions(G, what):
-    """Every node has a finite 3-vector; bonded pairs at bonding distance. Returns (kind, detail) or None."""
+def _check_positions(G, mol, what):
+    """Every node of G has a finite 3-vector that is the conformer position of "its own" atom of `mol`:
+    node -> atom found at that position is injective, keeps the element, maps bonds to bonds.
+    Returns (kind, detail) or None."""
     bad = []
     for n, d in G.nodes(data=True):
         p = d.get('position')
@@ -242,16 +246,56 @@ def _check_positions(G, what):
             bad.append((n, None if p is None else repr(p)[:40]))
     if bad:
         return 'position-missing-or-not-finite', '%s: %d of %d nodes without a finite 3-vector, e.g. %s' % (what, len(bad), len(G), bad[:3])
+    P = np.asarray(mol.GetConformer().GetPositions(), dtype=float)
+    atom_of = {}
+    for n in G.nodes:
+        dist = np.linalg.norm(P - G.nodes[n]['position'], axis=1)
+        a = int(np.argmin(dist))
+        if dist[a] > POS_TOL:
+            return 'position-is-no-atom-position', '%s: node %r has position %s, nearest RDKit atom is %.3g away' % (
+                what, n, G.nodes[n]['position'].round(4).tolist(), dist[a])
+        atom_of[n] = a
+    if len(set(atom_of.values())) != len(atom_of):
+        dup = [n for n in atom_of if list(atom_of.values()).count(atom_of[n]) > 1][:6]
+        return 'two-nodes-on-one-atom', '%s: nodes %s share the position of one RDKit atom' % (what, dup)
+    wrong_el = [(n, G.nodes[n].get('element'), mol.GetAtomWithIdx(a).GetSymbol()) for n, a in atom_of.items()
+                if G.nodes[n].get('element') != mol.GetAtomWithIdx(a).GetSymbol()]
     wrong = []
     for u, v in G.edges:
-        lo, hi = _bond_bounds(G.nodes[u].get('element'), G.nodes[v].get('element'))
-        dist = float(np.linalg.norm(G.nodes[u]['position'] - G.nodes[v]['position']))
-        if not (lo <= dist <= hi):
+        if mol.GetBondBetweenAtoms(atom_of[u], atom_of[v]) is None:
+            dist = float(np.linalg.norm(G.nodes[u]['position'] - G.nodes[v]['position']))
             wrong.append((u, G.nodes[u].get('element'), v, G.nodes[v].get('element'), round(dist, 3)))
-    if wrong:
-        return 'bond-not-at-bonding-distance', '%s: %d of %d bonds outside [%.1f, %.1f] x radii sum, e.g. %s; node order %s' % (
-            what, len(wrong), G.number_of_edges(), LO, HI, wrong[:4], list(G.nodes)[:12])
+    if wrong or wrong_el:
+        return 'position-of-another-atom', ('%s: %d of %d bonds join nodes whose positions belong to two atoms that are not bonded '
+                                            '(node, element, node, element, distance in A) e.g. %s; %d nodes sit on an atom of another element e.g. %s; '
+                                            'node order %s' % (what, len(wrong), G.number_of_edges(), wrong[:4], len(wrong_el), wrong_el[:3],
+                                                               list(G.nodes)[:12]))
     return None
+
+
+class _CaptureEmbedding:
+    """Observe the RDKit molecule that the code under test embeds (wraps two functions of rdkit.Chem.AllChem
+    for the duration of one call; nothing in the tree under test is modified)."""
+
+    def __enter__(self):
+        from rdkit.Chem import AllChem
+        self.mod = AllChem
+        self.mols = []
+        self.orig = {}
+        for name in ('EmbedMolecule', 'UFFOptimizeMolecule'):
+            fn = getattr(AllChem, name)
+            self.orig[name] = fn
+
+            def wrapper(mol, *a, _fn=fn, **k):
+                self.mols.append(mol)
+                return _fn(mol, *a, **k)
+            setattr(AllChem, name, wrapper)
+        return self
+
+    def __exit__(self, *exc):
+        for name, fn in self.orig.items():
+            setattr(self.mod, name, fn)
+        return False
 
 
 def _rdkit_refusal(exc):
@@ -365,7 +409,7 @@ def _check_roundtrip(case, key, aa):
                              '%s form, %s: %s' % (case['form'], kc, diff),
                              classify('rdkit_roundtrip', cls + '/' + case['form'] + '/' + kc, 'chemistry-not-preserved')))
     if conf:
-        bad = _check_positions(back, 'graph returned by rdkit_to_networkx')
+        bad = _check_positions(back, mol, 'graph returned by rdkit_to_networkx')
         if bad:
             fails.append(Failure('rdkit_to_networkx', bad[0], bad[1], classify('rdkit_to_networkx', cls, bad[0])))
     return Outcome(key, nontrivial, fails)
@@ -380,15 +424,20 @@ def _check_embed(case, key, cg, aa):
     kc = _key_class(G)
     nontrivial = kc != 'keys-equal-iteration-position' and len(G) >= 3
     fails = []
+    cap = _CaptureEmbedding()
     try:
-        embed_3d_via_rdkit(G)
+        with cap:
+            embed_3d_via_rdkit(G)
     except Exception as e:
         if _rdkit_refusal(e):
             return Outcome(key, False, [], skipped=True, note='RDKit could not embed: %s' % str(e)[:100])
         fails.append(Failure('embed_3d_via_rdkit', 'exception', '%s: %s; node order %s' % (type(e).__name__, e, list(G.nodes)[:12]),
                              classify('embed_3d_via_rdkit', kc, type(e).__name__)))
         return Outcome(key, nontrivial, fails)
-    bad = _check_positions(G, 'graph after embed_3d_via_rdkit')
+    mol = cap.mols[-1] if cap.mols else None
+    if mol is None or mol.GetNumConformers() == 0:
+        return Outcome(key, False, [], skipped=True, note='the RDKit molecule embedded by the code could not be observed')
+    bad = _check_positions(G, mol, 'graph after embed_3d_via_rdkit')
     if bad:
         fails.append(Failure('embed_3d_via_rdkit', bad[0], bad[1], classify('embed_3d_via_rdkit', kc, bad[0])))
         return Outcome(key, nontrivial, fails)
